@@ -17,7 +17,7 @@ import (
 )
 
 func c03GenOp(t *rapid.T, first bool, ver int) *world.Op {
-	kinds := []string{"upgrade", "upgrade", "upgrade", "rollback", "install", "uninstall"}
+	kinds := []string{"upgrade", "upgrade", "upgrade", "rollback", "rollback", "install", "uninstall"}
 	if first {
 		kinds = []string{"install"}
 	}
@@ -42,11 +42,47 @@ func c03GenOp(t *rapid.T, first bool, ver int) *world.Op {
 	return op
 }
 
+// c03HitsStaleObject reports whether op's cluster-request fault lands on the GET or DELETE of an object that the
+// operation deletes as stale (a non-hook object deleted in a fault-free run).
+func c03HitsStaleObject(w *world.World, op *world.Op) bool {
+	if op.Fault.Kind != "kube" {
+		return false
+	}
+	dry := w.DryCount(op)
+	stale := map[string]bool{}
+	for _, e := range dry.Events {
+		if e.Layer == "kube" && e.Verb == "DELETE" && !isHookKey(e.Key) {
+			stale[e.Key] = true
+		}
+	}
+	k := 0
+	for _, e := range dry.Events {
+		if e.Layer != "kube" || e.Key == "/version" {
+			continue
+		}
+		if k == op.Fault.K {
+			return stale[e.Key] && (e.Verb == "GET" || e.Verb == "DELETE")
+		}
+		k++
+	}
+	return false
+}
+
 func c03GenFault(t *rapid.T, w *world.World, op *world.Op) world.Fault {
-	kind := rapid.SampledFrom([]string{"none", "kube", "kube", "kube", "wait"}).Draw(t, "faultKind")
-	if kind == "none" || op.Kind == "uninstall" {
+	// the first install is faulted less often, so that histories with a deployed revision (the base every upgrade and
+	// rollback fault needs) are common
+	weights := []string{"none", "phased", "phased", "uniform"}
+	if len(w.History()) == 0 {
+		weights = []string{"none", "none", "none", "phased", "uniform"}
+	}
+	how := rapid.SampledFrom(weights).Draw(t, "faultHow")
+	if how == "none" || op.Kind == "uninstall" {
 		return world.Fault{}
 	}
+	if how == "phased" {
+		return genPhasedFault(t, w, op)
+	}
+	kind := rapid.SampledFrom([]string{"kube", "kube", "kube", "wait"}).Draw(t, "faultKind")
 	pos := rapid.IntRange(0, 999).Draw(t, "faultPos")
 	kn, wn, _, _ := w.Count(op)
 	n := map[string]int{"kube": kn, "wait": wn}[kind]
@@ -298,7 +334,7 @@ func c03Prop(t *rapid.T) {
 	if vt.Thorough() {
 		maxOps = 9
 	}
-	nops := rapid.IntRange(1, maxOps).Draw(t, "nops")
+	nops := rapid.IntRange(2, maxOps).Draw(t, "nops")
 	j := &c03Judge{t: t, w: w, revTracker: newRevTracker()}
 	lbl := map[string]bool{}
 	var fp []string
@@ -316,7 +352,30 @@ func c03Prop(t *rapid.T) {
 			}
 			lbl["retry-failed-install-with-replace"] = true
 		}
+		// aimed away from the triggers of two recorded findings in three cases out of four (each cut history is one
+		// that explores nothing behind it); the avoided draws are counted
+		if op.Kind == "upgrade" && op.Atomic && rapid.IntRange(0, 3).Draw(t, "avoidKnownAtomicAbort") > 0 {
+			// known: the internal rollback aborts when the upgrade drops a resource of the deployed revision
+			if d := deployedRevs(w.History()); len(d) > 0 {
+				if base, ok := j.specOf[d[len(d)-1]]; ok {
+					have := op.Chart.ResByKey()
+					for _, r := range base.Resources {
+						if _, ok := have[r.Key()]; !ok {
+							op.Chart.Resources = append(op.Chart.Resources, r)
+							evid.Note("C03:generator/atomic-upgrade-keeps-the-deployed-resources (avoids a known finding)")
+						}
+					}
+				}
+			}
+		}
 		op.Fault = c03GenFault(t, w, op)
+		if (op.Kind == "upgrade" || op.Kind == "rollback") && op.Fault.Kind == "kube" && rapid.IntRange(0, 3).Draw(t, "avoidKnownStaleSwallow") > 0 {
+			// known: a rejected GET/DELETE of a stale object (deleted at the end of the update) is swallowed
+			for try := 0; try < 4 && c03HitsStaleObject(w, op); try++ {
+				evid.Note("C03:generator/fault-moved-off-a-stale-object-request (avoids a known finding)")
+				op.Fault = c03GenFault(t, w, op)
+			}
+		}
 		j.ops = append(j.ops, op)
 		preCluster := w.Cluster.Snapshot()
 		res := w.Run(op)
